@@ -226,8 +226,9 @@ where
     {
         loop {
             match self.peek()? {
-                None if scratch == b"." => {
-                    // A lone dot at the end of input may still become `.a` or `...`
+                None if scratch == b"." || is_truncated_utf8(scratch) => {
+                    // A lone dot at the end of input may still become `.a` or
+                    // `...`, and a partial character may still be completed
                     return error(self, ErrorCode::EofWhileParsingValue);
                 }
                 Some(b' ') | Some(b'\n') | Some(b'\t') | Some(b'\r') | Some(0x0C) | Some(b')')
@@ -417,11 +418,17 @@ impl<'a> SliceRead<'a> {
                         if borrowed == b"." {
                             return error(self, self.lone_dot_error());
                         }
+                        if self.index == self.slice.len() && is_truncated_utf8(borrowed) {
+                            return error(self, ErrorCode::EofWhileParsingValue);
+                        }
                         return result(self, borrowed).map(Reference::Borrowed);
                     } else {
                         scratch.extend_from_slice(&self.slice[start..self.index]);
                         if scratch == b"." {
                             return error(self, self.lone_dot_error());
+                        }
+                        if self.index == self.slice.len() && is_truncated_utf8(scratch) {
+                            return error(self, ErrorCode::EofWhileParsingValue);
                         }
                         // "as &[u8]" is required for rustc 1.8.0
                         let copied = scratch as &[u8];
@@ -721,6 +728,13 @@ fn next_or_eof_char<'de, R: ?Sized + Read<'de>>(read: &mut R) -> Result<u8> {
 fn error<'de, R: ?Sized + Read<'de>, T>(read: &R, reason: ErrorCode) -> Result<T> {
     let position = read.position();
     Err(Error::syntax(reason, position.line, position.column))
+}
+
+/// Is `bytes` well-formed UTF-8 except that it ends in the middle of a
+/// character? At the end of input that is "more data needed", not an error in
+/// what has been read.
+fn is_truncated_utf8(bytes: &[u8]) -> bool {
+    matches!(str::from_utf8(bytes), Err(e) if e.error_len().is_none())
 }
 
 fn as_str<'de, 's, R: Read<'de>>(read: &R, slice: &'s [u8]) -> Result<&'s str> {
